@@ -44,6 +44,10 @@ def model_text(ident, role):
     if role == "parameter":
         return (f"states(x=0.5, z=2, w=1)\nparameters({ident}=1.5, q=0.25)\nu = {ident}*x + z\n"
                 f"dx_dt = -q*x + u\ndz_dt = Conditional(Gt(x, 0), -z, z) + {ident}*w\ndw_dt = u - w*abs({ident})\n")
+    if role == "conditional":
+        # an intermediate defined directly by a conditional (printed through the Piecewise-assignment path)
+        return (f"states(x=0.5, z=2, w=1)\nparameters(p=1.5, q=0.25)\n{ident} = Conditional(Gt(x, 0), p*x + z, z - 1)\nv2 = {ident}*{ident} + 1\n"
+                f"dx_dt = -q*x + {ident}\ndz_dt = Conditional(Gt({ident}, 0), -z, z) + v2*w\ndw_dt = {ident} - w*abs(x)\n")
     return (f"states(x=0.5, z=2, w=1)\nparameters(p=1.5, q=0.25)\n{ident} = p*x + z\nv2 = {ident}*{ident} + 1\n"
             f"dx_dt = -q*x + {ident}\ndz_dt = Conditional(Gt({ident}, 0), -z, z) + v2*w\ndw_dt = {ident} - w*abs(x)\n")
 
@@ -129,7 +133,7 @@ def main(argv=None):
     core.CASE_SECONDS = 120
     want_cache = {}
     for ident in idents:
-        for role in ("state", "parameter", "intermediate"):
+        for role in ("state", "parameter", "intermediate", "conditional"):
             fresh = "zq_fresh"
             text = model_text(ident, role)
             ref_text = model_text(fresh, role)
